@@ -58,8 +58,8 @@ func (r *runner) logf(format string, a ...any) {
 
 func (r *runner) violate(clause, format string, a ...any) {
 	d := fmt.Sprintf(format, a...)
-	if len(d) > 600 {
-		d = d[:600] + "..."
+	if len(d) > 1500 {
+		d = d[:1500] + "..."
 	}
 	for _, v := range r.res.Violations {
 		if v.Clause == clause {
@@ -111,11 +111,12 @@ func Run(t *testing.T, c *Case, done func(*Result)) {
 	if cfg.MaxSteps == 0 {
 		cfg.MaxSteps = 600000
 	}
+	cfg.IdleLimit = 5000 * time.Hour // clock jumps while the store is stopped are legitimate; liveness is judged per operation
 	cfg.OnEnd = func(s *verifsim.Sim) { done(r.finish(s)) }
 	verifsim.RunBubble(t, cfg, func(s *verifsim.Sim) {
 		r.s = s
 		r.startedAt = time.Now()
-		r.st = simenv.NewStore(s, w, "s0", k, "")
+		r.st = simenv.NewStore(s, w, "s0", k, c.Mode)
 		r.script()
 	})
 }
@@ -308,7 +309,12 @@ func (r *runner) step(st *Step) {
 			}
 		}
 	case "seal":
-		if r.st.Loaded {
+		if r.st.Loaded && r.c.Knobs.FracSize < 1<<29 {
+			// SealForcedForTests is a tests-only entry point that is not safe against the maintenance loop
+			// rotating at the same time (both call rotate()); with a small FracSize the maintenance loop
+			// rotates and seals on its own: give it time instead.
+			r.s.SleepSim(time.Duration(3*r.c.Knobs.MaintenanceDelayMs+50) * time.Millisecond)
+		} else if r.st.Loaded {
 			fm := r.st.FM
 			if res := r.st.Call(bootTimeout, func() { fm.WaitIdle(); fm.SealForcedForTests() }); res == "timeout" {
 				r.violate("hang", "seal did not finish\n%s", r.s.DumpTasks())
